@@ -416,12 +416,13 @@ def run(repo: str, tier: str, seed: int, replay_dir=None, write_ev=True, jobs=No
         # ---- copies of option objects: set on the original, copy (shallow / deep), set on the copy (or on
         # the original), convert with the other one: the two must be independent
         copy_hist = []
-        for shallow in (True, False):
+        for shallow in (True, False, "pickle"):
             for n1 in OPTION_NAMES:
                 for n2 in OPTION_NAMES:
                     for who_set, who_conv in (("c1", "o1"), ("o1", "c1")):
                         copy_hist.append([{"op": "new", "id": "o1"}, {"op": "set", "obj": "o1", "name": n1, "value": OPTION_SPACE[n1][1]},
-                                          {"op": "copy", "id": "c1", "src": "o1", "shallow": shallow},
+                                          ({"op": "copy", "id": "c1", "src": "o1", "shallow": False, "pickle": 5} if shallow == "pickle"
+                                           else {"op": "copy", "id": "c1", "src": "o1", "shallow": shallow}),
                                           {"op": "set", "obj": who_set, "name": n2, "value": OPTION_SPACE[n2][1 if n2 != n1 else 0]},
                                           {"op": "conv", "prog": "short:sentinel", "obj": who_conv}, {"op": "conv", "prog": "short:sentinel", "obj": who_set}])
         # ---- a real file name passed as filename=, then a same-length variant of its contents under the
